@@ -530,6 +530,16 @@ func (tr *Tr) discharge(cfg *SolverCfg, workers int, keep func(o *Obligation) bo
 		q := decls + tr.relevantAssumes(sl, o.Guard, true, o) + fmt.Sprintf("(assert (and %s (not %s)))\n", o.Guard, o.Goal)
 		var gv []Term
 		r := solve(q, cfg, fmt.Sprintf("o%d_%d", i, os.Getpid()), gv)
+		if r.status != "unsat" && r.status != "sat" && atomic.AddInt64(&tr.escalations, 1) <= 6 {
+			// no answer within the limit from any back end: once more with three times the limit
+			// (at most six obligations per function, so a broken tree does not take forever)
+			big := *cfg
+			big.TimeoutMs = cfg.TimeoutMs * 3
+			if r2 := runSolver("z3-new", q+"(check-sat)\n", &big, false, fmt.Sprintf("e%d_%d", i, os.Getpid())); r2.status == "unsat" || r2.status == "sat" {
+				r2.ms += r.ms
+				r = r2
+			}
+		}
 		o.Result, o.Solver, o.TimeMs, o.Model = r.status, r.solver, r.ms, r.model
 		if r.status != "unsat" && r.status != "sat" {
 			o.Model = r.raw
@@ -653,6 +663,7 @@ type walkResult struct {
 	failing Term // for sat/unknown: (=> conds leaf) of the leaf that was not proved
 	ms      int64
 	note    string
+	escalated int // leaves retried with three times the time limit
 }
 
 func walkTree(pre string, guard Term, tree *GoalTree, cfg *SolverCfg, id string) walkResult {
@@ -664,7 +675,7 @@ func walkTree(pre string, guard Term, tree *GoalTree, cfg *SolverCfg, id string)
 	if per < 3000 {
 		per = 3000
 	}
-	deadline := t0.Add(time.Duration(cfg.TimeoutMs*6) * time.Millisecond)
+	deadline := t0.Add(time.Duration(cfg.TimeoutMs*10) * time.Millisecond)
 	ctx, cancel := context.WithDeadline(context.Background(), deadline.Add(5*time.Second))
 	defer cancel()
 	c := exec.CommandContext(ctx, "z3-new", "-in", fmt.Sprintf("smt.random_seed=%d", cfg.Seed))
@@ -747,6 +758,13 @@ func walkTree(pre string, guard Term, tree *GoalTree, cfg *SolverCfg, id string)
 	walk = func(n *GoalTree, conds []Term) string {
 		if n.A == nil {
 			r := check(append(append([]Term{}, conds...), Not(n.Leaf)), per)
+			if r == "unknown" {
+				// a leaf that runs into the time limit is tried once more with three times the
+				// limit before the obligation is given up (a loaded machine must not turn a proof
+				// that needs most of the limit into an alarm)
+				res.escalated++
+				r = check(append(append([]Term{}, conds...), Not(n.Leaf)), per*3)
+			}
 			if r != "unsat" {
 				res.failing = Implies(And(conds...), n.Leaf)
 			}
